@@ -1,6 +1,7 @@
 package rules
 
 import (
+	"go/constant"
 	"go/types"
 	"sort"
 	"strings"
@@ -104,7 +105,8 @@ func (c *Ctx) ruleIdleCheck(rule string) {
 		for _, in := range b.Instrs {
 			if call, ok := in.(*ssa.Call); ok {
 				for _, g := range c.M.Callees(&call.Call) {
-					if s := c.clearSummary(g, ro, memo, 0); s == "iftrue" || s == "all" {
+					s := c.clearSummary(g, ro, memo, 0)
+					if s == "all" || (s == "iftrue" && c.falseOnlyWhilePending(g, ro)) {
 						return true
 					}
 				}
@@ -131,6 +133,50 @@ func (c *Ctx) ruleIdleCheck(rule string) {
 			c.R.Ok(rule, k, c.M.InstrPos(call), "read-loop iteration", "every path back to the Decode passes a call that clears the running flag when nothing is pending (or the loop is left)")
 		}
 	}
+}
+
+// falseOnlyWhilePending: every `return false` of fn sits inside a loop over the pending table (it was decided by looking
+// at a pending entry). A handler that reports "not fatal" with false decides nothing about idleness.
+func (c *Ctx) falseOnlyWhilePending(fn *ssa.Function, ro *atpRoles) bool {
+	var scans []*ssa.BasicBlock
+	for _, b := range fn.Blocks {
+		for _, in := range b.Instrs {
+			if nx, ok := in.(*ssa.Next); ok {
+				if rg, ok := nx.Iter.(*ssa.Range); ok && c.isFieldLoad(rg.X, ro.clientT, ro.pending) {
+					// the loop body: the successor taken while the iterator delivers
+					if ifi, ok := b.Instrs[len(b.Instrs)-1].(*ssa.If); ok {
+						if ex, ok := ifi.Cond.(*ssa.Extract); ok && ex.Tuple == ssa.Value(nx) && ex.Index == 0 {
+							scans = append(scans, b.Succs[0])
+						}
+					}
+				}
+			}
+		}
+	}
+	n := 0
+	for _, r := range core.ReturnsOf(fn) {
+		if len(r.Results) != 1 {
+			return false
+		}
+		cst, ok := core.RetVal(r, 0).(*ssa.Const)
+		if !ok || cst.Value == nil || cst.Value.Kind() != constant.Bool {
+			return false
+		}
+		if constant.BoolVal(cst.Value) {
+			continue
+		}
+		n++
+		inside := false
+		for _, sb := range scans {
+			if sb.Dominates(r.Block()) {
+				inside = true
+			}
+		}
+		if !inside {
+			return false
+		}
+	}
+	return n > 0
 }
 
 // R-CHILDREN (C01, C02): a container schema (a struct with child-schema fields: the map's key and value schemas, the
